@@ -22,7 +22,7 @@ def run(ctx):
         ctx, "Constructor", gen_imm.build_ctor, {"CTOR"}, cfg,
         modes_quick=[("single", 6000), ("seq2", None), ("spell", None)],
         modes_thorough=[("single", None), ("seq2", None), ("seq3", None), ("spell", None)],
-        devs=[("LeakWalkState", "seq2", ("Exact",)), ("CtorAnyPkg", "single0", ("Exact",)), ("CtorByBareName", "single0", ("Exact",)), ("NoUnalias", "spell", ("Exact",)), ("CtorAnyType", "single0", ("Exact",)), ("GroupDocLeaks", "single0", ("Exact",)), ("PruneReported", "single0", ("Exact",)), ("BareNameCache", "seq2", ("Exact",)), ("PtrAliasIsValue", "spell", ("Exact",))],
+        devs=[("LeakWalkState", "seq2", ("Exact",)), ("CtorAnyPkg", "single0", ("Exact",)), ("CtorByBareName", "single0", ("Exact",)), ("NoUnalias", "spell", ("Exact",)), ("CtorAnyType", "single0", ("Exact",)), ("GroupDocLeaks", "single0", ("Exact",)), ("PruneReported", "single0", ("Exact",)), ("LastCtorLineOnly", "single", ("Exact",)), ("BareNameCache", "seq2", ("Exact",)), ("PtrAliasIsValue", "spell", ("Exact",))],
         registry=True,
         assumptions=["fragment: non-generic defined types, direct imports, one candidate statement per declaration",
                      "trailing comma in the constructor list and methods named like a constructor are not generated (unspecified)",
